@@ -211,18 +211,21 @@ Plan gen_ansic_plan(uint64_t seed) {
   }
   size_t maxtok = getenv("VSIM_ANSIC_MAXTOK") ? (size_t)atol(getenv("VSIM_ANSIC_MAXTOK")) : toks.size();
   std::vector<int> in;
-  int style = (int)r.below(5);
+  int style = (int)r.below(8);
   if (style >= 3 && cuts.size() > 8) {
     // a short unit (a few consecutive top-level declarations), usually with one token deleted or doubled: error
     // recovery in the middle of a parse whose goto cache is warm
     for (int tries = 0; tries < 20 && in.empty(); tries++) {
       size_t k = (size_t)r.below(cuts.size() - 1);
       size_t e = std::min(cuts.size() - 1, k + (size_t)r.range(1, 5));
-      if (cuts[e] - cuts[k] <= 500 && cuts[e] - cuts[k] >= 8) in.assign(toks.begin() + (long)cuts[k], toks.begin() + (long)cuts[e]);
+      if (cuts[e] - cuts[k] <= 800 && cuts[e] - cuts[k] >= 8) in.assign(toks.begin() + (long)cuts[k], toks.begin() + (long)cuts[e]);
     }
-    if (!in.empty() && r.chance(4, 5)) {
-      size_t pos = (size_t)r.below(in.size());
-      if (r.chance(2, 3)) in.erase(in.begin() + (long)pos); else in.insert(in.begin() + (long)pos, in[pos]);
+    if (!in.empty() && r.chance(5, 6)) {
+      int edits = r.range(1, 3);
+      for (int i = 0; i < edits && in.size() > 2; i++) {
+        size_t pos = (size_t)r.below(in.size());
+        if (r.chance(2, 3)) in.erase(in.begin() + (long)pos); else in.insert(in.begin() + (long)pos, in[pos]);
+      }
     }
     return build(r, seed, g, in, 1, 0, 1, r.chance(3, 4) ? 3 : r.range(1, 5), false);
   }
